@@ -15,9 +15,13 @@ MANIFEST = dict(
     design="6/C20")
 
 FAMILIES = ["long_line", "many_lines", "line_comments", "block_comments", "plus_chain", "and_chain", "concat_chain", "in_list", "values_rows",
-            "many_statements", "long_string", "long_identifier", "qualified_names", "join_chain", "case_whens", "func_args", "whitespace"]
-ENTRIES = ["tokenize", "parse", "sql", "format", "formatter", "scan", "scansql", "extract"]
+            "many_statements", "long_string", "long_identifier", "qualified_names", "join_chain", "case_whens", "func_args", "whitespace",
+            "string_literals", "quoted_idents", "backtick_idents", "numbers", "placeholders", "dollar_quoted", "dollar_tags_unclosed", "casts",
+            "json_ops", "subscripts", "semicolons", "dots", "or_like", "order_by_list", "crlf_lines", "unicode_idents"]
+ENTRIES = ["tokenize", "tokenize_ctx", "parse", "parse_ctx", "validate", "recovery", "sql", "format", "formatter", "scan", "scansql", "extract", "lint"]
+CPU_RATIO_LIMIT = 9.0     # CPU time for a 4x larger input (min of repeats), judged only when the smallest run takes >= 20 ms
 EXP_LIMIT = 1.5
+ALLOC_RATIO_LIMIT = 7.0
 
 
 def exponent(w):
@@ -86,14 +90,21 @@ def run(tier):
         rp.violation({"kind": "proof", "theorem": "Props/C20.v", "log": (logs["inst"] + logs["props"])[-3000:]}, "props_c20", no_input=True)
 
     known = {k["signature"].get("function"): k for k in common.known_findings("C20") if k["status"] == "known"}
-    ladders = [(500, 1000, 2000)] if tier == "quick" else [(500, 1000, 2000), (8000, 16000, 32000)]
+    ladders = [(1000, 2000, 4000)] if tier == "quick" else [(500, 1000, 2000), (8000, 16000, 32000)]
     jobs = [(e, f, k) for lad in ladders for e in ENTRIES for f in FAMILIES for k in lad]
-    res = cm.measure_many(jobs, timeout=240 if tier == "quick" else 900)
+    if tier != "quick":
+        # text-level scanning and tokenizing of very many lexemes: a larger ladder (library-call work shows late)
+        big = (16000, 32000, 64000)
+        ladders = ladders + [big]
+        jobs += [(e, f, k) for e in ("scansql", "tokenize", "tokenize_ctx", "lint") for f in FAMILIES for k in big]
+    res = cm.measure_many(jobs, workers=16, timeout=240 if tier == "quick" else 900)
     by = {(r["entry"], r["family"], r["k"]): r for r in res}
     rows, flagged, maxbytes, nontrivial = [], {}, 0, set()
     for lad in ladders:
         for e in ENTRIES:
             for f in FAMILIES:
+                if (e, f, lad[0]) not in by:
+                    continue
                 rs = [by[(e, f, k)] for k in lad]
                 bad = [r for r in rs if "total" not in r]
                 if bad:
@@ -106,6 +117,23 @@ def run(tier):
                 maxbytes = max(maxbytes, rs[2]["info"]["bytes"])
                 nontrivial.add((e, f, lad))
                 rows.append({"entry": e, "family": f, "ks": lad, "bytes": [r["info"]["bytes"] for r in rs], "work": w, "exponent": round(ex, 3), "status": rs[2]["info"]["status"]})
+                # bytes allocated (copying work the statement counters do not see, e.g. repeated string concatenation):
+                # growth by more than 7x for a 4x larger input is super-linear (linear with a capacity step stays below 6)
+                al = [r["info"].get("alloc_bytes", 0) for r in rs]
+                if al[0] > 0 and al[2] / al[0] > ALLOC_RATIO_LIMIT and al[2] > (1 << 22):
+                    fl = flagged.setdefault(("alloc", e, f), {"entry": e, "family": f, "ks": lad, "alloc_bytes": al, "ratio": round(al[2] / al[0], 2),
+                                                             "what": "allocated bytes grow super-linearly (copying work)", "measure": "alloc"})
+                rows[-1]["alloc_bytes"] = al
+                cpu = [r["info"].get("cpu_us", 0) for r in rs]
+                rows[-1]["cpu_us"] = cpu
+                if cpu[0] >= 20000 and cpu[2] / cpu[0] > CPU_RATIO_LIMIT:
+                    # timing is noisy: confirm with two more measurements, keep the minimum per size
+                    again = cm.measure_many([(e, f, k) for k in lad for _ in range(2)], timeout=900)
+                    for j, k in enumerate(lad):
+                        cpu[j] = min([cpu[j]] + [r["info"]["cpu_us"] for r in again if r.get("k") == k and "info" in r])
+                    if cpu[0] >= 20000 and cpu[2] / cpu[0] > CPU_RATIO_LIMIT:
+                        flagged.setdefault(("cpu", e, f), {"entry": e, "family": f, "ks": lad, "cpu_us": cpu, "ratio": round(cpu[2] / cpu[0], 2),
+                                                           "what": "CPU time grows super-linearly (work inside library calls such as string search, copying or regular-expression matching is not visible to the statement counters)", "measure": "cpu"})
                 if ex > EXP_LIMIT:
                     top = hot(rs)
                     fl = flagged.setdefault((top[0][0],), {"entry": e, "family": f, "ks": lad, "work": w, "exponent": round(ex, 3), "hot_functions": top,
@@ -130,12 +158,21 @@ def run(tier):
             flagged.setdefault((top[0][0],), {"entry": e, "family": "union_chain", "ks": uk, "work": w, "step_ratio": round(ratio, 2), "hot_functions": top,
                                                "what": "work per added element keeps growing (exponential)", "also": []})
     n_viol = 0
+    known_alloc = [k for k in common.known_findings("C20") if k["status"] == "known" and k["signature"].get("kind") == "alloc"]
+    seen_known = set()
     for key, fl in flagged.items():
         fn = key[0] if len(key) == 1 else None
         short = fn.split(":")[-1] if fn else None
         if short and short in known:
             rp.known("Cost:" + short, known[short].get("what", ""))
             continue
+        if key[0] in ("alloc", "cpu"):
+            ka = [k for k in known_alloc if key[1] in k["signature"]["entries"] and key[2] in k["signature"]["families"]]
+            if ka:
+                if ka[0]["key"] not in seen_known:
+                    seen_known.add(ka[0]["key"])
+                    rp.known(ka[0]["key"], ka[0].get("what", ""))
+                continue
         n_viol += 1
         rp.violation(dict(fl, kind="oracle", replay="bin/check C20 --replay <this file>",
                           explanation="statement executions of the repository code grow faster than near-linearly with the input size for this entry point and input family"),
@@ -233,6 +270,13 @@ def replay(path):
             ratio = (w[-1] - w[-2]) / max(w[1] - w[0], 1)
             print("work", w, "step ratio", ratio); return 1 if ratio > 3 else 0
         ex = exponent(w)
-        print("work", w, "exponent", round(ex, 3))
+        al = [r["info"].get("alloc_bytes", 0) for r in res]
+        print("work", w, "exponent", round(ex, 3), "alloc", al)
+        if d.get("measure") == "alloc":
+            return 1 if al[0] > 0 and al[2] / al[0] > ALLOC_RATIO_LIMIT else 0
+        if d.get("measure") == "cpu":
+            cpu = [r["info"].get("cpu_us", 0) for r in res]
+            print("cpu_us", cpu)
+            return 1 if cpu[0] > 0 and cpu[2] / cpu[0] > CPU_RATIO_LIMIT else 0
         return 1 if ex > EXP_LIMIT else 0
     return 2
